@@ -126,3 +126,9 @@ Definition comp_exactb (T : its) (comp : list N) : bool :=
   Z.eqb (sumF (dl_of T) (filter (fun n => 0 <? dl_of T n) comp)) (sumF (fun n => - dl_of T n) (filter (fun n => dl_of T n <? 0) comp)).
 Definition pairs_exactb (T : its) : bool := forallb (fun c => comp_exactb T (sort_N c)) (components (pair_to_nodes T)).
 
+
+(** default-mode rule preparation, exactly: [side0 iG eG tpl] / [side0 iH eH tpl] = the left / right side graph of the
+    template at the start of _strip_explicit_h (hydrogen counts standardised, then reset to 0); [heavy_nbr g h] = atom h
+    has a non-hydrogen neighbour in g (what _removable_on asks) *)
+Definition heavy_nbr (g : molg) (h : N) : bool := existsb (fun x => negb (is_H_m g x)) (nbrs g h).
+Definition side0 (sn : inode -> nattr) (se : iedge -> Z) (tpl : its) : molg := init_m (dec_side sn se (standardize_hydrogen tpl)).
